@@ -16,8 +16,9 @@ def main():
     if not run.thorough:
         beh = beh[::2]
     cases = make_cases(beh, "bw", sizes, run, allq=1)
-    for c in cases:
+    for k, c in enumerate(cases):
         c["opts"]["bs"] = 2
+        c["cached"] = k % 2        # every other file: all queries in sequence through one caching reader
     desc = lambda o: {"result": o["obs"].get("result"), "err": o["obs"].get("err"), "queries": o["obs"].get("queries", [])[:80]}
     obs = judge(run, "C03", "Obs_BigWig", cases, lambda o: len(o["items"]) >= 2, desc)
     run.sample({"items": obs[len(obs) // 3]["items"], "queries": obs[len(obs) // 3]["obs"].get("queries", [])[:3]})
